@@ -60,6 +60,8 @@ Ok(v, used) == [ok |-> TRUE, v |-> v, used |-> used]
 Avail(s, off, n) == off + n <= Len(s)
 Cut(s, off, n) == SubSeq(s, off + 1, off + n)
 
+\* a length the result type (a non-negative Go int) cannot represent: an 8-byte prefix >= 2^63
+TooBig(le) == Len(le) = 8 /\ le[8] >= 128
 Parse(h, s) ==
   CASE h.h = "Num"  -> IF Avail(s, 0, h.a) THEN Ok(Rev(Cut(s, 0, h.a)), h.a) ELSE Short
     [] h.h = "Bool" -> IF Avail(s, 0, 1) THEN Ok(<<IF s[1] = 0 THEN 0 ELSE 1>>, 1) ELSE Short
@@ -74,7 +76,7 @@ Parse(h, s) ==
               IN  IF Avail(s, h.a, n * h.b)
                     THEN Ok([k \in 1..n |-> Rev(Cut(s, h.a + (k - 1) * h.b, h.b))], h.a + n * h.b)
                     ELSE Short
-    [] h.h = "Peek" -> IF Avail(s, 0, h.a) THEN Ok(Rev(Cut(s, 0, h.a)), 0) ELSE Short
+    [] h.h = "Peek" -> IF Avail(s, 0, h.a) /\ ~TooBig(Cut(s, 0, h.a)) THEN Ok(Rev(Cut(s, 0, h.a)), 0) ELSE Short
 
 -------------------------------------------------------------------------------
 (* the reading helper as a step machine over a reader that splits arbitrarily *)
@@ -123,7 +125,7 @@ GiveUp   == /\ Discipline = "single" /\ st = "run" /\ need >= 0
             /\ st' = "err"
             /\ UNCHANGED <<h, v, src, pos, fields, buf>>
 Finish   == /\ st = "run" /\ need = -1
-            /\ st' = "ok"
+            /\ st' = IF h.h = "Peek" /\ TooBig(fields[1]) THEN "err" ELSE "ok"
             /\ UNCHANGED <<h, v, src, pos, fields, buf>>
 Next == ReadStep \/ HitEOF \/ Complete \/ Finish \/ GiveUp
 
